@@ -5,7 +5,7 @@ import ast
 from typing import List, Optional, Tuple
 
 from ..collect import Path, callee_is, run_paths
-from ..common import calls_in, construct, where
+from ..common import with_helpers, calls_in, construct, where
 from ..flow import subterms, NONE, Value, show
 from ..loader import AnalysisError, ClassInfo, FuncInfo, Program
 from ..report import Report
@@ -314,7 +314,7 @@ def run(p: Program, rep: Report, tier: str) -> None:
             rep.undecide("R9.4", f"{side} Hosts.__call__: match / no-match paths not both found")
         if side == "asgi":
             # the ASGI side scans scope['headers'] for b'host'
-            consts = [n.value for n in ast.walk(call.node) if isinstance(n, ast.Constant)]
+            consts = [n.value for f_ in with_helpers(p, call) for n in ast.walk(f_.node) if isinstance(n, ast.Constant)]
             if b"host" in consts:
                 rep.ok("R9.4", "asgi Hosts reads the b'host' header")
             else:
